@@ -36,6 +36,7 @@ type Config struct {
 	PwMinLen, PwMinUpper, PwMinLower, PwMinNum, PwMinSym int
 	PwAllowSpace                                         bool
 
+	OddPIDs          bool `json:"odd_pids"`
 	NAccounts        int  `json:"n_accounts"`
 	NBrowsers        int  `json:"n_browsers"`
 	WholeSecondClock bool `json:"whole_second_clock"`
